@@ -451,7 +451,7 @@ def extract(g, X):
         i = filers.index("impl<'a, B, OC, SC, L> Resolve for StorageResolver")
         b = X.fn_body(filers[i:], "get")
         # the arm may carry a guard (`Err(e) if computed => …`: the error computed by this very load)
-        shared = "true" if re.search(r"Err\(e\)\s*(?:if\s+[^=]*?)?=>\s*Err\(\s*PdfError::Shared\s*\{", b) else "false"
+        shared = "true" if re.search(r"Err\(\s*\w+\s*\)\s*(?:if\s+[^=]*?)?=>\s*Err\(\s*PdfError::Shared\s*\{", b) else "false"
         return shared
     g.attempt([("get_wraps_shared", "bool")], "file.rs:StorageResolver::get", getfn)
 
